@@ -46,11 +46,11 @@ fn show<P: Prop>(_p: &P, path: &Path) -> i32 {
     let v: serde_json::Value = serde_json::from_str(&s).unwrap_or_default();
     if let Ok(h) = serde_json::from_value::<krpv::ops::History>(v["case"].clone()) {
         for l in krpv::hist::transcript(&h, v["lenient"].as_bool().unwrap_or(true)) {
-            println!("{}", l);
+            krpv::outln!("{}", l);
         }
         0
     } else {
-        println!("{}", serde_json::to_string_pretty(&v["case"]).unwrap_or_default());
+        krpv::outln!("{}", serde_json::to_string_pretty(&v["case"]).unwrap_or_default());
         0
     }
 }
